@@ -40,12 +40,16 @@ Fixpoint le_value (l : bytes) : N :=
   match l with [] => 0%N | b :: l' => (b + 256 * le_value l')%N end.
 
 Definition zr_repr (a : Z) : bytes := le_bytes 32 (Z.to_N a).
-(* PrimeField::from_repr of both curve crates: canonical little-endian if < r, otherwise the
-   same 32 bytes read big-endian and reduced mod r, rejected only when that is zero *)
+(* PrimeField::from_repr of both curve crates: canonical little-endian if < r; otherwise the value
+   is reduced mod r (the bytes are reversed and fed to from_okm) and rejected only when that is zero *)
 Definition zr_unrepr (b : bytes) : option Z :=
   if negb (Nat.eqb (length b) 32) then None
   else let v := Z.of_N (le_value b) in
        if v <? r_mod then Some v
-       else let s := Z.of_N (le_value (rev b)) mod r_mod in
+       else let s := v mod r_mod in
             if s =? 0 then None else Some s.
+(* Scalar's own serde form: 32 bytes big-endian, rejected unless < r *)
+Definition zr_sdec (b : bytes) : option Z :=
+  if negb (Nat.eqb (length b) 32) then None
+  else let v := Z.of_N (le_value (rev b)) in if v <? r_mod then Some v else None.
 Definition zr_of_u64 (x : N) : Z := Z.of_N x mod r_mod.
